@@ -371,7 +371,18 @@ def frame_up(rows: list[bytes], sim: Sim, knobs: dict | None, opts_row: bytes | 
     frames.append(cur)
     if weird and sim.flip(weird, 16, "trailing_empty"):
         frames.append(wire.Frame([]))
+    avoid_ambiguous_leading(frames)
     return frames
+
+
+def avoid_ambiguous_leading(frames: list) -> None:
+    """Domain exclusion shared with C08: a first frame that carries metadata but no rows and is exactly
+    10 bytes long starts with 0A 7A .., which the documented three-byte heuristic (and any reader that
+    must guess the framing) cannot tell from a non-delimited stream whose first row is 122 bytes long.
+    The property texts restrict themselves to streams whose first frame is empty or starts with a row."""
+    if frames and not frames[0].rows and frames[0].metadata and len(frames[0].encode()) == 10:
+        k, v = frames[0].metadata[-1]
+        frames[0].metadata[-1] = (k, v + b"\x00")
 
 
 def metadata_for(sim: Sim, i: int) -> list[tuple[str, bytes]]:
